@@ -155,13 +155,26 @@ func TestC36_FinalizedChain(t *testing.T) {
 			switch op {
 			case "extend":
 				var parent *block.Block
-				switch k := rapid.IntRange(0, 9).Draw(t, "where"); {
+				switch k := rapid.IntRange(0, 11).Draw(t, "where"); {
 				case last != nil && k < 6:
 					parent = last // the branch that grew last keeps growing
 				case k < 9:
 					parent = tips[rapid.IntRange(0, len(tips)-1).Draw(t, "tip")]
+				case k < 11:
+					// a late branch that forks off below the latest finalized block
+					var below []*block.Block
+					lfbNow := n.c.GetLatestFinalizedBlock()
+					for _, b := range all {
+						if b.Round < lfbNow.Round {
+							below = append(below, b)
+						}
+					}
+					if len(below) == 0 {
+						below = all
+					}
+					parent = below[rapid.IntRange(0, len(below)-1).Draw(t, "below")]
 				default:
-					parent = all[rapid.IntRange(0, len(all)-1).Draw(t, "any")] // a new fork anywhere, also below the lfb
+					parent = all[rapid.IntRange(0, len(all)-1).Draw(t, "any")] // a new fork anywhere
 				}
 				if perRound[parent.Round+1] >= 3 {
 					continue
